@@ -366,6 +366,52 @@ writer loads `running = false` and leaves (2), Stop returns (3), the producer ma
 def swappedSched : List (Nat × Nat) :=
   rep 0 10 ++ rep 2 2 ++ rep 0 2 ++ rep 1 4 ++ rep 2 2 ++ rep 1 3 ++ rep 0 3
 
+/-! ### Flush scenarios (forced on the real code with the first object's `BatchWrite` held on a channel)
+
+`runThread` lets one thread run on its own: at every step `choice` picks the successor; it stops when `stop`
+holds, the thread cannot move, or the fuel is used up (the writer never blocks while its time-out alternative
+exists, so `runSched` with a fixed number of steps cannot express "until the queue is drained"). -/
+
+def runThread (S : Sys St Thread) (i : Nat) (choice : St → Nat) (stop : St → Bool) : Nat → Cfg St Thread → Cfg St Thread
+  | 0, c => c
+  | fuel + 1, (s, ts) =>
+    if stop s then (s, ts)
+    else
+      match ts[i]? with
+      | none => (s, ts)
+      | some t =>
+        match (S.step s t)[choice s]? with
+        | none => (s, ts)
+        | some (s', t') => runThread S i choice stop fuel (s', ts.set i t')
+
+/-- the writer's preference in the flush scenarios: in its blocking `select` the flush request if there is one
+(the alternative after the receive, when the queue is not empty), otherwise the first alternative (receive; with
+an empty queue: the time-out) -/
+def flushFirst (s : St) : Nat :=
+  if s.wpc = .sel ∧ s.flushCh ∧ s.queue ≠ [] then 1 else 0
+
+/-- producer 0 (objects `0..n-1`), one Flush caller, one Stop caller, the writer -/
+def flushThreads (n : Nat) : List Thread :=
+  [.prod 0 .idle 0 (List.range n), .flusher false 1, .stopper 0 .idle, .writer]
+
+/-- `flush-span`: the producer enqueues object 0 completely (15), the writer takes it up to and including its
+BatchWrite (6: there the real BatchWrite is held), the producer enqueues objects `1..n-1` (7 steps each; queue
+size `n`), Flush (2); release: the writer finishes the batch of object 0 if it is full, takes the flush request
+at its next `select` and drains the queue in the flush loop — committing every full batch and replacing the
+collector inside the one flush — until the queue is empty and the last (partial or empty) batch is committed;
+then Stop runs up to its Wait (4), the writer leaves (3), Stop returns (3). -/
+def flushSpanCfg (b n : Nat) : Cfg St Thread :=
+  let c1 := runSched sys (initSt n b, flushThreads n) (rep 0 15 ++ rep 3 6 ++ rep 0 (7 * (n - 1)) ++ rep 1 2)
+  let c2 := runThread sys 3 flushFirst (fun s => s.wpc = .loopRun && s.queue.isEmpty && !s.flushCh) (40 * n + 40) c1
+  runSched sys c2 (rep 2 4 ++ rep 3 3 ++ rep 2 3)
+
+/-- `flush-stop` (batch size ≥ 2): the producer enqueues object 0 (15), the writer takes it up to and including
+its BatchWrite (6), Flush (2), Stop is invoked and reaches its Wait (4: `running` is false now); release: the
+writer goes back to its `select`, takes the pending flush request, finds the queue empty, commits, calls Done,
+sees `running = false` and the counter at 0 and leaves (8); Stop returns (3). -/
+def flushStopCfg (q b : Nat) : Cfg St Thread :=
+  runSched sys (initSt q b, flushThreads 1) (rep 0 15 ++ rep 3 6 ++ rep 1 2 ++ rep 2 4 ++ rep 3 8 ++ rep 2 3)
+
 def stuckProducers (S : Sys St Thread) (c : Cfg St Thread) : List Nat :=
   c.2.filterMap (fun t => match t with
     | .prod id pc _ _ => if pc ≠ .idle ∧ (S.step c.1 t).isEmpty then some id else none
@@ -402,6 +448,8 @@ def modelLine (ws : List String) : String :=
     projections sys (runSched sys (initSt q 1, witnessThreads 2 (fun _ => 0)) (if q = 0 then windowDupSchedU else windowDupSched)) 2
   | "two-stops" :: _ =>
     projections sys (runSched sys (initSt q 1, twoStopsThreads) (if q = 0 then twoStopsSchedU else twoStopsSched)) 1 2
+  | "flush-span" :: _ => projections sys (flushSpanCfg (kvArg "b" ws) (kvArg "n" ws)) 1
+  | "flush-stop" :: _ => projections sys (flushStopCfg q (kvArg "b" ws)) 1
   | _ => "unknown-witness"
 
 /-! ### Writer conformance: the model's writer goroutine, driven by what the real one was observed to do
